@@ -121,7 +121,8 @@ def case_dedup(seed, out, spec, wd):
                 if not case.rig.is_host(real.file):
                     continue
                 roots = [(v, real.locals[v.name]) for v in fr.variables if v.name in real.locals]
-                got = snapcheck.check_table(snap.var_lookup, roots, 1024, probs, strict_children=None, max_coll=10)
+                got = snapcheck.check_table(snap.var_lookup, roots, snapcheck.default_limits()['max_str'], probs, strict_children=None,
+                                            max_coll=None)
                 for vid, obj in got.items():
                     if vid in reached and reached[vid] is not obj:
                         probs.add('identity:id-shared-by-different-objects',
@@ -239,7 +240,8 @@ def case_capture(seed, out, spec, wd):
                 for v in snap.frames[0].variables:
                     if v.name in ('a', 'keep') and v.name in frame.f_locals:
                         roots.append((v, frame.f_locals[v.name]))
-                snapcheck.check_table(snap.var_lookup, roots, 1024, probs, strict_children=None, max_coll=10)
+                snapcheck.check_table(snap.var_lookup, roots, snapcheck.default_limits()['max_str'], probs, strict_children=None,
+                                            max_coll=None)
 
     rig.post = post
     hung = False
